@@ -225,12 +225,14 @@ def run_case(ctx, st, pt, p, heavy=True):
         # reverse
         r = a.reverse()
         same(r.reverse(), 'reverse-twice-not-identity')
-        a.reverse(swap_terms=True)
-        b = a.copy()
-        b.reverse(inplace=True)
-        ctx.decided()
-        if rp.observed_fields(b) != rp.observed_fields(r):
-            ctx.violation('inplace-differs-from-copy', {'text': text, 'operation': 'reverse'})
+        for swap in (False, True):
+            rs = a.reverse(swap_terms=swap)
+            b = a.copy()
+            b.reverse(inplace=True, swap_terms=swap)
+            ctx.decided()
+            if rp.observed_fields(b) != rp.observed_fields(rs):
+                ctx.violation('inplace-differs-from-copy', {'text': text, 'operation': 'reverse', 'swap_terms': swap})
+            same(rs.reverse(swap_terms=swap), 'reverse-twice-not-identity', swap_terms=swap)
         pt.reverse(text, swap_terms=rng.random() < 0.5)
         # shifts
         ks = range(-2 * n, 2 * n + 1) if heavy else [rng.randint(-2 * n, 2 * n) for _ in range(3)] + [n, 0, -n]
